@@ -30,6 +30,21 @@ def run(ctx, rep):
     winding_symmetry(prog, rep)
     polyline_points(prog, rep)
     outline_runs(prog, rep)
+    try:
+        winding_normalised(prog, rep)
+    except Exception as e:
+        import traceback; traceback.print_exc()
+        rep.fail("R19.6", "engine", "winding analysis crashed: %r" % (e,), status="undecided")
+    try:
+        thin_polyline_pixels(prog, rep)
+    except Exception as e:
+        import traceback; traceback.print_exc()
+        rep.fail("R19.7", "engine", "thin polyline analysis crashed: %r" % (e,), status="undecided")
+    try:
+        vertex_sort(prog, rep)
+    except Exception as e:
+        import traceback; traceback.print_exc()
+        rep.fail("R19.5", "engine", "order-type analysis crashed: %r" % (e,), status="undecided")
 
 
 def triangle_edges(prog, rep):
@@ -76,19 +91,7 @@ def triangle_edges(prog, rep):
     ok = sorted(set(lines), key=str) == [(0, 1), (0, 2), (1, 2)]
     rep.check(ok, "R19.1", "contains:edges", "the border check of Triangle::contains must walk the same canonical edges (p1,p2), (p1,p3), (p2,p3) of the (y, x)-sorted vertices as the rasteriser; walks %s" % sorted(set(lines), key=str),
               at=co.span, fn=co.path, detail=sorted(set(lines), key=str))
-    # sorted_yx really sorts: three compare-exchange steps through sort_two_yx covering all three positions
-    sy = prog.method1(TRI, "sorted_yx", None)
-    s = sites(sy, "sort_two_yx")
-    rep.check(len(s) == 3, "R19.1", "sorted_yx:network", "sorted_yx must be a three-step compare-exchange network over the vertices (found %d steps)" % len(s), at=sy.span, fn=sy.path)
-    st = prog.fn_by_path("embedded_graphics::primitives::triangle::sort_two_yx")
-    from mirq.origin import decisions
-    forms = set()
-    for lits, ret, _ in decisions(st):
-        r = strip_refs(ret)
-        m = match(r, ("agg", "tuple", ("?x", "?y")))
-        if m is not None and {m["?x"], m["?y"]} == {P(1, "p1"), P(2, "p2")}:
-            forms.add((m["?x"][2], m["?y"][2]))
-    rep.check(forms == {("p1", "p2"), ("p2", "p1")}, "R19.1", "sort_two_yx", "sort_two_yx must return its two arguments in one of the two orders; returns %s" % sorted(forms), at=st.span, fn=st.path)
+    # (that sorted_yx really sorts by (y, x) is R19.5, decided over order types)
 
 
 def polyline_points(prog, rep):
@@ -391,3 +394,201 @@ def outline_runs(prog, rep):
     rep.check(not bad and kinds == want and n_loop >= 4, "R19.4", "edge_intersections:runs",
               "every edge intersection must be merged into / become the left run, or after the left run refused it the right run: %s" % ("; ".join(sorted(set(bad))[:2]) or "dispositions found: %s" % sorted(kinds)),
               at=f.span, fn=f.path, detail={"loop_paths": n_loop})
+
+
+def vertex_sort(prog, rep):
+    """R19.5 Triangle::sorted_yx returns the three vertices ordered by (y, x).  scanline_intersection draws a flat
+    (collinear) triangle as the single line from the first to the last sorted vertex, which covers the closed triangle
+    only if those are its two extreme points; for points on one line the (y, x) order puts the extremes first and last.
+    The sort touches the six coordinates only through comparisons, so it is decided by exhaustive case analysis over
+    their order types (mirq.orders, D5): 3 x-ranks x 3 y-ranks per vertex, 729 cases; x and y live in separate
+    comparison domains, a comparison across them is refused."""
+    import itertools
+    from mirq.orders import OrderEval, Undecided, Sc
+    TRI = "embedded_graphics::primitives::triangle::Triangle"
+    try:
+        f = prog.method1(TRI, "sorted_yx", None)
+    except Exception as e:
+        rep.fail("R19.5", "anchor", "Triangle::sorted_yx not found: %s" % e, status="undecided")
+        return
+    E = OrderEval(prog)
+    n = 0
+    bad = None
+    try:
+        for xs in itertools.product(range(3), repeat=3):
+            for ys in itertools.product(range(3), repeat=3):
+                pts = tuple((Sc("x", x), Sc("y", y)) for x, y in zip(xs, ys))
+                got = E.call_fn(f, [(pts,)])
+                n += 1
+                out = got[0] if isinstance(got, tuple) and len(got) == 1 else got
+                ok = isinstance(out, tuple) and len(out) == 3 and all(isinstance(q, tuple) and len(q) == 2 and isinstance(q[0], Sc) and isinstance(q[1], Sc) for q in out)
+                if ok:
+                    keys = [(q[1].v, q[0].v) for q in out]
+                    ok = sorted(keys) == sorted((y, x) for x, y in zip(xs, ys)) and keys == sorted(keys)
+                if not ok:
+                    bad = "vertices with (x, y) ranks %s come back as %r, not ordered by (y, x)" % (list(zip(xs, ys)), out)
+                    raise StopIteration
+    except StopIteration:
+        pass
+    except Undecided as e:
+        rep.fail("R19.5", "sorted_yx", "the vertex sort is not a pure comparison network over the coordinates: %s" % e, status="undecided", at=f.span, fn=f.path)
+        return
+    rep.analysed["R19.5:order-type cases"] = n
+    rep.check(bad is None, "R19.5", "sorted_yx", "Triangle::sorted_yx: %s; a flat triangle is then drawn between two vertices that are not its extremes" % bad, at=f.span, fn=f.path,
+              detail={"cases": n, "functions": sorted(E.fns_seen)})
+
+
+def winding_normalised(prog, rep):
+    """R19.6 the triangle that the scanline machinery works on is winding-normalised on every path: the value stored
+    in ScanlineIntersections::triangle and the receiver of Triangle::is_collapsed ("the triangle is sorted clockwise, so
+    the inner side is the right side") is `sorted_clockwise(..)` of something — in the constructor itself or, traced
+    through its parameter, at every call site on every path of every caller.  Edge order and stroke side are read from
+    that stored triangle, so an unnormalised path makes the result depend on the order of the vertices."""
+    SI = "embedded_graphics::primitives::triangle::scanline_intersections::ScanlineIntersections"
+    try:
+        f0 = prog.method1(SI, "new", None)
+        tidx = [i for i, fd in enumerate(prog.adts[SI]["variants"][0]["fields"]) if fd["name"] == "triangle"][0]
+    except Exception as e:
+        rep.fail("R19.6", "anchor", "ScanlineIntersections::new / its `triangle` field not found: %s" % e, status="undecided")
+        return
+    P_ = {}
+
+    def summs_of(g):
+        if g.id not in P_:
+            out = None
+            for mode in ("refuse", "once"):
+                try:
+                    out = Paths(prog, inline=lambda h: prog.is_new(h), loops=mode).of(g)
+                    break
+                except Unsupported:
+                    continue
+            P_[g.id] = out
+        return P_[g.id]
+
+    def trees(sm):
+        ts = [sm.ret] + [e_[1] if e_[0] == "call" else e_[2] for e_ in sm.effects] + [x for fc in sm.facts for x in fc[1:] if isinstance(x, tuple) and x and isinstance(x[0], str)]
+        return [t for t in ts if isinstance(t, tuple)]
+    bad, und, sites = [], [], [0]
+
+    def cond(sm):
+        c = "; ".join(show_fact_(fc) for fc in sm.facts[:2])
+        return " [when %s]" % c[:90] if c else ""
+
+    def settle(g, sm, t, trail, depth=0):
+        a = strip_refs(t)
+        while a[0] in ("cast", "copy") or (a[0] == "call" and a[1].split("::")[-1] in ("clone", "borrow", "deref") and len(a[3]) == 1):
+            a = strip_refs(a[1] if a[0] != "call" else a[3][0])
+        if a[0] == "call" and a[1].endswith("Triangle::sorted_clockwise"):
+            return
+        if a[0] == "param" and depth < 4:
+            users = [prog.fns[u] for u in sorted(prog.uses_of(g)) if u != g.root_fn().id and "::tests::" not in u and "::tests" not in prog.fns[u].path]
+            family = [h for h in prog.fns.values() if h.body and h.root_fn().id in {u.id for u in users}]
+            n = 0
+            for h in family:
+                ss = summs_of(h)
+                if ss is None:
+                    und.append("cannot summarise caller %s" % h.path)
+                    continue
+                for sm2 in ss:
+                    seen = set()
+                    for tr in trees(sm2):
+                        for x in walk(tr):
+                            if isinstance(x, tuple) and x[0] == "call" and x[1] == g.path and len(x[3]) >= a[1] and x not in seen:
+                                seen.add(x)
+                                n += 1
+                                settle(h, sm2, x[3][a[1] - 1], trail[:-1] + [trail[-1] + cond(sm), "%s::%s" % (h.path.split("::")[-2], h.name)], depth + 1)
+            if n:
+                return
+        bad.append("%s: the triangle is %s" % (" <- ".join(trail), show(a, maxd=4)))
+    from mirq.paths import show_fact as show_fact_
+    ss0 = summs_of(f0)
+    if ss0 is None:
+        rep.fail("R19.6", "ScanlineIntersections::new", "cannot summarise", status="undecided", at=f0.span, fn=f0.path)
+        return
+    for sm in ss0:
+        seen = set()
+        for tr in trees(sm):
+            for x in walk(tr):
+                if not isinstance(x, tuple) or x in seen:
+                    continue
+                if x[0] == "agg" and isinstance(x[1], str) and x[1].startswith(SI) and len(x[2]) > tidx:
+                    seen.add(x)
+                    sites[0] += 1
+                    settle(f0, sm, x[2][tidx], ["ScanlineIntersections::new stores"])
+                elif x[0] == "call" and x[1].endswith("Triangle::is_collapsed") and x[3]:
+                    seen.add(x)
+                    sites[0] += 1
+                    settle(f0, sm, x[3][0], ["ScanlineIntersections::new asks is_collapsed of"])
+    rep.floor("R19.6", "uses of the triangle in ScanlineIntersections::new", sites[0], 2)
+    if und and not bad:
+        rep.fail("R19.6", "winding-normalised", "; ".join(sorted(set(und))[:3]), status="undecided", at=f0.span, fn=f0.path)
+    else:
+        rep.check(not bad, "R19.6", "winding-normalised", "the scanline machinery must work on sorted_clockwise(triangle) on every path: %s" % "; ".join(sorted(set(bad))[:3]),
+                  at=f0.span, fn=f0.path, detail={"sites": sites[0], "functions_summarised": len(P_)})
+
+
+def thin_polyline_pixels(prog, rep):
+    """R19.7 a one-pixel polyline is drawn as exactly the points of Polyline::points(): wherever the polyline's styled code
+    (src/primitives/polyline/styled.rs) builds a Pixel from an item of polyline::Points (the payload of its `next`, or the
+    parameter of the closure mapped over `points()`), the Pixel's point is that item itself — nothing added, nothing
+    recomputed.  polyline::Points already carries the translation (R07.3) and the joint handling (R19.2)."""
+    PTS = "embedded_graphics::primitives::polyline::points::Points"
+    fns = [f for f in prog.fns.values() if f.body and (f.span or "").startswith("src/primitives/polyline/styled.rs") and "::tests" not in f.id]
+    fns += [g for f in list(fns) for g in prog.new_helpers_of(f) if g not in fns]
+
+    def pixels(t):
+        return [x for x in walk(t) if isinstance(x, tuple) and x[0] == "agg" and isinstance(x[1], str) and x[1].endswith("drawable::Pixel") or
+                (isinstance(x, tuple) and x[0] == "agg" and isinstance(x[1], str) and x[1].split("::")[-1] == "Pixel" and len(x[2]) == 2)]
+
+    def from_points(t):
+        return any(isinstance(x, tuple) and x[0] == "call" and x[1].endswith("::next") and PTS in x[1] for x in walk(t))
+    n, bad, und = 0, [], []
+    for f in sorted(fns, key=lambda f: f.id):
+        item_param = None
+        if f.kind == "closure":
+            # a closure mapped over Polyline::points(): its (only) explicit parameter is an item of the thin iterator
+            root = f.root_fn()
+            mapped = False
+            for mode in ("refuse", "once"):
+                try:
+                    for sm in Paths(prog, inline=lambda h: prog.is_new(h), loops=mode).of(root):
+                        for tr in [sm.ret] + [e_[1] if e_[0] == "call" else e_[2] for e_ in sm.effects]:
+                            for x in walk(tr) if isinstance(tr, tuple) else ():
+                                if (isinstance(x, tuple) and x[0] == "call" and x[1].split("::")[-1] in ("map", "for_each", "filter_map", "flat_map") and len(x[3]) == 2
+                                        and any(isinstance(y, tuple) and y[0] == "call" and y[1].endswith("PointsIter>::points") and "polyline" in y[1] for y in walk(x[3][0]))
+                                        and any(isinstance(y, tuple) and y[0] == "agg" and isinstance(y[1], str) and y[1] == "closure:" + f.id for y in walk(x[3][1]))):
+                                    mapped = True
+                    break
+                except Unsupported:
+                    continue
+            if mapped:
+                item_param = 2
+        try:
+            summs = Paths(prog, inline=lambda h: prog.is_new(h)).of(f)
+        except Unsupported:
+            try:
+                summs = Paths(prog, inline=lambda h: prog.is_new(h), loops="once").of(f)
+            except Unsupported as e:
+                if item_param:
+                    und.append("%s: %s" % (f.path, e))
+                continue
+        for sm in summs:
+            for tr in [sm.ret] + [e_[1] if e_[0] == "call" else e_[2] for e_ in sm.effects]:
+                if not isinstance(tr, tuple):
+                    continue
+                for px in pixels(tr):
+                    pt = strip_refs(px[2][0])
+                    thin = from_points(pt) or (item_param and any(isinstance(x, tuple) and x[0] == "param" and x[1] == item_param for x in walk(pt)))
+                    if not thin:
+                        continue
+                    n += 1
+                    exact = (pt[0] == "payload" and strip_refs(pt[1])[0] == "call" and PTS in strip_refs(pt[1])[1]) or (item_param and pt[0] == "param" and pt[1] == item_param)
+                    if not exact:
+                        bad.append("%s builds the pixel at %s" % (f.path.split("polyline::styled::")[-1], show(pt, maxd=4)))
+    rep.floor("R19.7", "pixels built from polyline::Points items", n, 2)
+    if und and not bad:
+        rep.fail("R19.7", "thin-polyline", "; ".join(und[:2]), status="undecided")
+    else:
+        first = fns[0] if fns else None
+        rep.check(not bad, "R19.7", "thin-polyline", "the pixels of a one-pixel polyline must be the items of Polyline::points() themselves (they are already translated): %s" % "; ".join(sorted(set(bad))[:3]),
+                  at=first.span if first else "", fn=first.path if first else "", detail={"functions": len(fns), "pixel sites": n})
